@@ -45,10 +45,11 @@ def xround(x):
 
 
 class Ref:
-    def __init__(self, nodes, variables=None, units=False):
+    def __init__(self, nodes, variables=None, units=False, negzero=False):
         self.nodes = nodes
         self.vars = variables or {}
         self.units = units
+        self.negzero = negzero      # known finding K13: a string denoting negative zero converts to +0
         self.order = {n.id: n.id for n in nodes}
 
     # ---- data model ----
@@ -99,7 +100,10 @@ class Ref:
             return 1.0 if v else 0.0
         if isinstance(v, float):
             return v
-        return str_to_num(self.to_str(v))
+        x = str_to_num(self.to_str(v))
+        if self.negzero and x == 0:
+            return 0.0
+        return x
 
     def to_bool(self, v):
         if isinstance(v, bool):
